@@ -3,6 +3,10 @@
 use crate::core::Check;
 
 pub mod c01;
+pub mod c02;
+pub mod c03;
+pub mod c04;
+pub mod common;
 pub mod c07;
 pub mod c18;
 pub mod crash;
@@ -10,6 +14,9 @@ pub mod crash;
 pub fn all() -> Vec<Box<dyn Check>> {
     vec![
         Box::new(c01::C01),
+        Box::new(c02::C02),
+        Box::new(c03::C03),
+        Box::new(c04::C04),
         Box::new(crash::Crash { id: "C05" }),
         Box::new(crash::Crash { id: "C06" }),
         Box::new(c07::C07),
